@@ -444,6 +444,9 @@ class _Random:
     @staticmethod
     def _draws(base, size):
         p = sym.cur()
+        p.rng_calls += 1
+        if p.rng_limit is not None and p.rng_calls > p.rng_limit:
+            raise sym.Cut("more than %d random draw calls on one path" % p.rng_limit)
         if size is None:
             return SNum(p.fresh(base))
         n = int(size) if not isinstance(size, (tuple, list)) else int(_np.prod(size))
@@ -460,12 +463,14 @@ class _Random:
             p.assume(v >= low)
             p.assume(v < high)
         p.event('random.uniform', low, high, size)
+        p.event('draws', d)
         return d
 
     @classmethod
     def normal(cls, loc=0.0, scale=1.0, size=None):
         d = cls._draws('normal', size)
         sym.cur().event('random.normal', loc, scale, size)
+        sym.cur().event('draws', d)
         return d
 
     @classmethod
